@@ -227,6 +227,7 @@ func directRun(sc scenario) []*request {
 
 func TestCheck(t *testing.T) {
 	r := rep.New("C14", "exploration")
+	gate.ReportHangs(r)
 	t0 := time.Now()
 	klog.LogToStderr(false)
 	klog.SetOutput(io.Discard)
